@@ -634,7 +634,9 @@ def gen_world(rng: random.Random, *, n_steps: int = 40, fleets: Optional[bool] =
         st = None
         if rng.random() < 0.7:
             st = f"bs{k+1}"
-            stations.append({"id": st, "lat": c[0], "lon": c[1],
+            # now and then the station that serves the base is registered at ANOTHER location (nothing forbids it)
+            sc = cells[(k + 2) % ncell] if rng.random() < 0.25 else c
+            stations.append({"id": st, "lat": sc[0], "lon": sc[1],
                              "plugs": [(rng.choice(["LEVEL_1", "LEVEL_2"]), rng.randint(1, 2), False)]})
         bases.append({"id": f"b{k+1}", "lat": c[0], "lon": c[1], "station": st, "stalls": rng.randint(1, 2) if tight else 5})
     vehicles = []
